@@ -12,6 +12,7 @@ import (
 )
 
 func (p *Program) funcDecl(obj *types.Func) (*ast.FuncDecl, *packages.Package) {
+	p.ensureDecls()
 	if obj == nil || obj.Pkg() == nil {
 		return nil, nil
 	}
@@ -19,6 +20,10 @@ func (p *Program) funcDecl(obj *types.Func) (*ast.FuncDecl, *packages.Package) {
 	if pk == nil {
 		return nil, nil
 	}
+	return p.declCache[obj], pk
+}
+
+func (p *Program) ensureDecls() {
 	if p.declCache == nil {
 		p.declCache = map[*types.Func]*ast.FuncDecl{}
 		for _, pkg := range p.Pkgs {
@@ -33,7 +38,6 @@ func (p *Program) funcDecl(obj *types.Func) (*ast.FuncDecl, *packages.Package) {
 			}
 		}
 	}
-	return p.declCache[obj], pk
 }
 
 // rhsOf collects the expressions assigned to variable v inside node (AssignStmt, ValueSpec).
